@@ -38,7 +38,9 @@ VcNodePair ==
     /\ BNMod(Ev.idx, "0x2") = "0x0"
     /\ Ev.hok
     /\ Ev.friendly = BNLeq(Ev.depth, nvf)
-    /\ \E i \in Pos(ready, Ev.idx, Ev.depth) : \E j \in Pos(ready, BNAdd(Ev.idx, "0x1"), Ev.depth) :
+    \* the right sibling is recognised by its heap index alone (as the queue machine of VectorCommitment.tla does):
+    \* for in-range indices the depths agree; for out-of-range aliases the run ends in a rejection either way
+    /\ \E i \in Pos(ready, Ev.idx, Ev.depth) : \E j \in {k \in 1..Len(ready) : ready[k][1] = BNAdd(Ev.idx, "0x1")} :
           /\ ready[i][2] = Ev.l /\ ready[j][2] = Ev.r
           /\ LET r1 == RemoveAt(ready, i)
                  j1 == IF j > i THEN j - 1 ELSE j
